@@ -163,3 +163,17 @@ TEXT["C17"] = dict(
                "key objects are counted exactly. Exploration: held on the histories generated.",
     level_note="trusts std::list / std::set / std::multiset as references; the recency order of an LRU cache is only "
                "observable through pop(), so it is compared at every pop and by a final drain")
+TEXT["C19"] = dict(
+    engine="offline-oracle",
+    design_ref="DESIGN.md section 4, C19",
+    technique="runtime differential monitor vs reference transcriptions of the documented definitions, exhaustive over short strings of a hostile alphabet, round-trip monitors, offline python oracle (base64, binascii) over the recorded log, under ASan+UBSan",
+    level_text="All 4681 strings of length <=4 over {separator, quote, escape, space, 'a', 'B', NUL, 0xE9}, each paired with "
+               "all 73 strings of length <=2, go through every overload of the pure helpers and are compared with direct "
+               "reference code (split with limits/min_fields, replace, trim family, starts/ends_with, contains, case "
+               "conversion, compare/equal/less_icase, erase_all, pad, levenshtein). Random vectors exercise join<->split "
+               "(bordered and multi-byte separators, trailing empty parts) and join_quoted<->split_quoted (empty fields, "
+               "leading quotes, escapes, control characters, 20 parameter triples). base64 (line breaks 0/4/8/76/random "
+               "multiple of 4, strict/non-strict) and both hexdumps are checked for every length 0..200+ and against "
+               "python's encoders. Exhaustive for the small space, sampled beyond.",
+    level_note="trusts the harness's reference transcriptions and python's base64/binascii; less_icase is only required "
+               "to be a consistent order that agrees with compare_icase on 7-bit input")
